@@ -9,7 +9,8 @@ import suites
 
 THEOREMS = ["decode_ok", "C01.c01_walker", "C01.c01_top", "intOfBytes_intToBytes", "intToBytes_length",
             "decodeArea_ok", "decodeSized_ok", "decodeCommand_ok", "decodeResponse_ok", "decodeStream_ok",
-            "MsgWF.c01_command_walker", "MsgWF.c01_command", "MsgWF.c01_response", "MsgWF.c09_stream", "MsgWF.tag_sizes"]
+            "MsgWF.c01_command_walker", "MsgWF.c01_command", "MsgWF.c01_response", "MsgWF.c09_stream", "MsgWF.tag_sizes",
+            "AcceptIff.type_accept_iff", "AcceptIff.command_accept_iff", "AcceptIff.response_accept_iff", "AcceptIff.stream_accept_iff"]
 
 
 def run(ctx, replay_case):
@@ -84,8 +85,8 @@ def run(ctx, replay_case):
 
 
 PROP = {
-    "targets": ["TpmProofs.Props.C01"],
-    "module": "TpmProofs.Props.C01",
+    "targets": ["TpmProofs.Props.AcceptIff"],
+    "module": "TpmProofs.Props.AcceptIff",
     "theorems": THEOREMS,
     "run": run,
     "assumptions": ["conformance of a value tree to a layout is `spec … = some _` (TpmModel/Spec.lean); well-formedness of a message is "
